@@ -304,6 +304,7 @@ def finish(run: PropertyRun, mod):
         "obligation_names": len(ob_list),
         "obligation_list": ob_list,
         "solver_time_s": round(sum(r["ms"] for r in rows) / 1000.0, 3),
+        "discharged_by_backend": {b: sum(1 for r in rows if r["status"] == "proved" and r["backend"] == b) for b in sorted({r["backend"] for r in rows if r["status"] == "proved"})},
         "paths_explored": sum(rep.paths for rep in run.reports),
         "unsupported_functions": [{"function": k, "reason": r} for k, r in unsupported],
         "undecided": [o["name"] for o in ob_list if o["result"] == "undecided"] + run.undecided,
